@@ -42,6 +42,7 @@ func checkC04(ctx *Ctx, r *Report) {
 	c04Worklists(ctx, r, g)
 	c04VisitedProtocol(ctx, r, g)
 	c04Fixpoints(ctx, r)
+	c04FixpointSelfTest(ctx, r)
 	c04Panics(ctx, r, g)
 	c04Assertions(ctx, r)
 	c04Lookups(ctx, r)
